@@ -15,9 +15,10 @@ Model-free oracles on the implementation (see design/C11.md):
   repo_key  the same file snapshotted into two encrypted repositories (independent keys): boundaries differ
   handover  streams handed to the adapter as ONE block larger than twice every size constant (>= 1 MiB, read with ast) of
             adapters.py / repository.py, and as many blocks: identical outside the tail zone; the pair / edit oracles on them
-  history   ONE adapter object chunks several (stream, key) jobs - sequentially in permuted order or with interleaved
-            generators, directly or through RepositoryProps.chunkify with the private part replaced: every job is cut
-            as by a brand-new adapter (and as by the model); different keys still give different boundaries
+  history   several (stream, key) jobs on one or several adapter objects / RepositoryProps - sequentially in permuted order,
+            interleaved, or started at different times (a native chunker is constructed while others are mid-stream) under a
+            random advance schedule: every job is cut as by a brand-new adapter run alone (and as by the model); different
+            keys still give different boundaries
 """
 from __future__ import annotations
 
@@ -573,7 +574,7 @@ RULE = ('cases drawn from one PRNG: (a) model-sized (<= ~620 bytes, max <= 64; d
         'pairs prefix1+S, prefix2+S with prefix lengths multiples of 4, unaligned negative controls, insert / delete (multiples of 4 bytes at any '
         'offset) / alter edits, key pairs - each stream chunked by the real adapter over the recompiled C++ under a random segmentation AND by the '
         'Gallina model (vm_compute); (b) oracle-only high-entropy streams of (256 + 2..6)*max bytes, max 64..256 (thorough: ..1024, some max not '
-        'multiples of 4), min <= max/16, same kinds, key pairs independent / k0 only / k1 with differing top bit; (c) streams of > 2x the largest size constant of the source (else 40 MiB) handed over as ONE block and as many blocks, max 64..128 KiB, pairs and edits near the start; (d) sessions: one adapter object used for 2-5 (stream, key) jobs, sequential / interleaved, adapter / RepositoryProps.chunkify; (e) real snapshots [a,F], [b,F] in one repository, and one file in two encrypted repositories; '
+        'multiples of 4), min <= max/16, same kinds, key pairs independent / k0 only / k1 with differing top bit; (c) streams of > 2x the largest size constant of the source (else 40 MiB) handed over as ONE block and as many blocks, max 64..128 KiB, pairs and edits near the start; (d) sessions: 2-5 (stream, key) jobs on 1-3 adapter objects, sequential / interleaved / staggered starts with a random advance schedule, adapter / RepositoryProps.chunkify; (e) real snapshots [a,F], [b,F] in one repository, and one file in two encrypted repositories; '
         'non-trivial = a common boundary outside the tail zone followed by >= 2 shared chunks (pairs, edits), >= 40 chunks (keys), '
         '>= 1 verified dominant position; distinct = distinct case descriptions')
 
@@ -685,9 +686,13 @@ def gen_session(rng, small):
         d = rng.choice(datas)
         jobs.append({'key': rng.choice(keys).hex(), 'dseed': d[0], 'n': d[1], 'dkind': d[2], 'segseed': rng.getrandbits(32)})
     rng.shuffle(jobs)                                   # key / stream order permutations
-    return {'kind': 'session', 'mn': mn, 'mx': mx, 'jobs': jobs, 'mode': rng.choice(['sequential', 'sequential', 'interleaved']),
-            'via': rng.choice(['adapter', 'adapter', 'props']), 'sched': rng.getrandbits(32), 'model': bool(small),
-            'whole': (not small) and rng.random() < 0.4}
+    nobj = rng.choice([1, 1, 2, 2, 3])                  # the jobs are spread over one or several adapter objects
+    for j in jobs:
+        j['obj'] = rng.randrange(nobj)
+        j['via'] = rng.choice(['adapter', 'adapter', 'props'])
+    return {'kind': 'session', 'mn': mn, 'mx': mx, 'jobs': jobs, 'objects': nobj,
+            'mode': rng.choice(['sequential', 'interleaved', 'staggered', 'staggered']),
+            'sched': rng.getrandbits(32), 'model': bool(small), 'whole': (not small) and rng.random() < 0.4}
 
 
 def session_jobs(case):
@@ -699,38 +704,59 @@ def session_jobs(case):
 
 
 def run_session(case, jobs):
-    """-> list of chunk lists, one per job, all produced through ONE adapter object."""
+    """-> list of chunk lists, one per job.  The jobs run on case['objects'] adapter objects (each also wrapped in its own
+    RepositoryProps, like two repositories in one process); generators are run one after the other ('sequential'), all
+    started before any is advanced ('interleaved'), or started at different times - a new one after a few chunks of the
+    others - ('staggered'), and advanced under a random schedule.  The native chunker is created when a generator is
+    first advanced, so 'staggered' constructs a native object while others are in the middle of their streams."""
     import dataclasses
     import _replicat_adapters as A
     from replicat.utils import adapters
     from replicat.repository import RepositoryProps
     A.GUARD = bytes([0xA5]) if case.get('model') else None
     try:
-        adapter = adapters.gclmulchunker(min_length=case['mn'], max_length=case['mx'])
-        base = RepositoryProps(chunker=adapter, hasher=adapters.blake2b(), cipher=adapters.aes_gcm(), private={'chunker_params': b''})
+        nobj = case.get('objects', 1)
+        objs = [adapters.gclmulchunker(min_length=case['mn'], max_length=case['mx']) for _ in range(nobj)]
+        bases = [RepositoryProps(chunker=o, hasher=adapters.blake2b(), cipher=adapters.aes_gcm(), private={'chunker_params': b''}) for o in objs]
 
-        def start(key, pieces):
-            if case['via'] == 'props':                  # what Repository.init / unlock do: replace() keeps the adapter objects
-                props = dataclasses.replace(base, cipher=(base.cipher if key else None), private={'chunker_params': key})
-                assert props.chunker is adapter
+        def start(i):
+            key, _, pieces = jobs[i]
+            spec = case['jobs'][i]
+            o = spec.get('obj', 0) % nobj
+            if spec.get('via', case.get('via', 'adapter')) == 'props':   # what Repository.init / unlock do: replace() keeps the adapter objects
+                props = dataclasses.replace(bases[o], cipher=(bases[o].cipher if key else None), private={'chunker_params': key})
+                assert props.chunker is objs[o]
                 return props.chunkify(iter(pieces))
-            return adapter(iter(pieces), params=key or None)
+            return objs[o](iter(pieces), params=key or None)
 
+        r = random.Random(case['sched'])
         outs = [[] for _ in jobs]
-        if case['mode'] == 'sequential':
-            for i, (key, _, pieces) in enumerate(jobs):
-                outs[i] = [bytes(c) for c in start(key, pieces)]
-        else:
-            r = random.Random(case['sched'])
-            gens = {i: start(key, pieces) for i, (key, _, pieces) in enumerate(jobs)}
-            while gens:
-                i = r.choice(sorted(gens))
-                for _ in range(r.choice([1, 1, 2, 5])):
-                    try:
-                        outs[i].append(bytes(next(gens[i])))
-                    except StopIteration:
-                        del gens[i]
-                        break
+        mode = case['mode']
+        pending, active = list(range(len(jobs))), {}
+        state = {'since': 0}
+
+        def advance(i, k):
+            for _ in range(k):
+                try:
+                    outs[i].append(bytes(next(active[i])))
+                    state['since'] += 1
+                except StopIteration:
+                    del active[i]
+                    return
+
+        if mode == 'interleaved':
+            active = {i: start(i) for i in pending}
+            pending = []
+        gap = r.choice([1, 2, 3, 5, 8])
+        while pending or active:
+            if pending and (not active or (mode == 'staggered' and state['since'] >= gap)):
+                i = pending.pop(0)
+                active[i] = start(i)
+                state['since'], gap = 0, r.choice([1, 2, 3, 5, 8])
+                advance(i, 1)                            # first advance: the native chunker of this job is constructed now
+                continue
+            i = r.choice(sorted(active))
+            advance(i, 10 ** 9 if mode == 'sequential' else r.choice([1, 1, 2, 5]))
         return outs
     finally:
         A.GUARD = None
@@ -752,18 +778,19 @@ def check_sessions(cases, rep: Report, with_model=True, stats=None):
             elif got != want:
                 e1, e2 = ends_of(got), ends_of(want)
                 d = next(k for k in range(min(len(e1), len(e2))) if e1[k] != e2[k]) if e1[:min(len(e1), len(e2))] != e2[:min(len(e1), len(e2))] else min(len(e1), len(e2))
-                problems.append((f'one adapter object, {case["mode"]} via {case["via"]} (min {mn}, max {mx}): stream {i} of {len(jobs)} ({len(data)} bytes, key {key.hex() or "default"}) '
-                                 f'is cut differently from what a new adapter object produces for the same key, parameters and data '
-                                 f'(chunk {d}: boundary {e1[d] if d < len(e1) else None} vs {e2[d] if d < len(e2) else None}) - the cuts depend on what the adapter did before', 'history'))
+                problems.append((f'{len(jobs)} streams on {case.get("objects", 1)} adapter object(s), {case["mode"]} (min {mn}, max {mx}): stream {i} ({len(data)} bytes, key {key.hex() or "default"}, '
+                                 f'object {case["jobs"][i].get("obj", 0)} via {case["jobs"][i].get("via", case.get("via", "adapter"))}) is cut differently from what a new adapter object '
+                                 f'produces for the same key, parameters and data when run alone (chunk {d}: boundary {e1[d] if d < len(e1) else None} vs '
+                                 f'{e2[d] if d < len(e2) else None}) - the cuts depend on what else the process chunks', 'history'))
         for i in range(len(jobs)):
             for j in range(i + 1, len(jobs)):
                 (k1, d1, _), (k2, d2, _) = jobs[i], jobs[j]
                 if (d1 == d2 and case['jobs'][i]['dkind'] == 'random' and mn * 16 <= mx and len(outs[i]) >= 40
                         and key_schedule(k1)[:8] != key_schedule(k2)[:8] and ends_of(outs[i]) == ends_of(outs[j])):
-                    problems.append((f'one adapter object, {case["mode"]} via {case["via"]} (min {mn}, max {mx}): keys {k1.hex() or "default"} and {k2.hex() or "default"} give '
+                    problems.append((f'{len(jobs)} streams on {case.get("objects", 1)} adapter object(s), {case["mode"]} (min {mn}, max {mx}): keys {k1.hex() or "default"} and {k2.hex() or "default"} give '
                                      f'identical boundaries on the same {len(d1)} high-entropy bytes ({len(outs[i])} chunks)', 'key'))
         rep.case(case, nontrivial=all(len(o) >= 3 for o in outs))
-        rep.count(('small:' if case.get('model') else 'large:') + f'session:{case["mode"]}:{case["via"]}')
+        rep.count(('small:' if case.get('model') else 'large:') + f'session:{case["mode"]}:{case.get("objects", 1)}obj')
         rep.count('session_jobs', len(jobs))
         stats['session_streams'] = stats.get('session_streams', 0) + len(jobs)
         rep.sample({'case': case, 'chunks_per_stream': [len(o) for o in outs]}, limit=6)
@@ -782,7 +809,7 @@ def check_sessions(cases, rep: Report, with_model=True, stats=None):
             for case, mc, m, i in zip(mref, mcases, model, mimpl):
                 rep.traces_validated += 1
                 if m != i:
-                    rep.disagreements.append({'what': f'chunk lengths differ on a re-used adapter object ({case["mode"]} via {case["via"]}, min {mc["mn"]}, max {mc["mx"]}, key {mc["key"]}): '
+                    rep.disagreements.append({'what': f'chunk lengths differ in a session ({case["mode"]}, {case.get("objects", 1)} adapter object(s), min {mc["mn"]}, max {mc["mx"]}, key {mc["key"]}): '
                                                       f'model {m} implementation {i}', 'replay': dict(case, model_lengths=m, impl_lengths=i)})
     return stats
 
